@@ -368,9 +368,14 @@ func (w *World) FsOp(s Step) error {
 			// this becomes an ordinary free-running burst
 			w.absorbing = false
 			w.segBurst = true
-		} else {
+		} else if len(w.pending) <= cap(w.W.Events) {
 			w.waitKernelEmpty() // no merging across ops: the reader has taken everything out
 		}
+		// with capacity+1 events pending the reader is parked in a send and
+		// cannot take anything more out (housekeeping records such as the
+		// IN_IGNORED of its own inotify_rm_watch may sit behind): no waiting; the
+		// queue was empty before this operation, so nothing of it merged with
+		// earlier events, and the next operation ends the absorb segment
 	}
 	return err
 }
@@ -579,8 +584,9 @@ func (w *World) waitKernelEmpty() {
 			time.Sleep(50 * time.Microsecond)
 		}
 		if i%1000 == 999 && time.Now().After(deadline) {
-			if w.wedge("kernel queue not drained while plugging") == wedgeRetry {
-				inconclusive("kernel queue not drained while plugging, no verdict")
+			if w.wedge("kernel queue not drained") == wedgeRetry {
+				q, _ := Fionread(w.Wfd)
+				inconclusive("kernel queue not drained (step %d, absorbing=%v plugged=%v FIONREAD=%d len(Events)=%d cap=%d pending=%d), no verdict", w.step, w.absorbing, w.plugged, q, len(w.W.Events), cap(w.W.Events), len(w.pending))
 			}
 			return
 		}
